@@ -240,3 +240,14 @@ Theorem shared_suffix_cut_identically_impl :
   post1 = post2.
 Proof. exact shared_suffix_impl_lemma. Qed.
 Print Assumptions shared_suffix_cut_identically_impl.
+
+(* ... and the converse: the most recent 64 bytes have a fingerprint with zero low bits at
+   L = min, yet the code does not cut there. *)
+Theorem fingerprint_zero_of_last_64_bytes_not_cut_refuted :
+  exists p s L,
+    rabin_accepts (c_avg p) (c_min p) (c_max p) = true /\ poly_accepts (c_poly p) = true /\
+    Forall isbyte s /\ c_min p <= L /\ L < c_max p /\ L < nlen s /\
+    N.land (fp_direct (c_poly p) (ntake 64 (ndrop (L - 64) s))) (c_avg p - 1) = 0 /\
+    is_cut (tab_of p) p s L = false /\ L < N.of_nat (first_len (tab_of p) p s).
+Proof. exact last64_zero_not_cut_lemma. Qed.
+Print Assumptions fingerprint_zero_of_last_64_bytes_not_cut_refuted.
